@@ -6,6 +6,9 @@ The batched sponge the workers use is iota.go's curl/bct, an external dependency
 import Iota.Gen.Pow
 import Iota.Tie.Expect
 import Iota.Model.Pow
+import Iota.Tie.PowCode
+import Iota.Proofs.Vectors.Curl
+import Iota.Proofs.Vectors.Hash
 
 namespace Iota.Tie.Pow
 open Iota
@@ -28,6 +31,8 @@ theorem tritToUint_eq :
     (Gen.Pow.tritToUint (BitVec.ofInt 8 0)).toNat = Pow.tritToUint 0 ∧
     (Gen.Pow.tritToUint (BitVec.ofInt 8 1)).toNat = Pow.tritToUint 1 := by decide
 
+/-- v1 `checkStateTrits` is not pinned by text any more: it is translated as code and tied to the model for all
+inputs in `Iota/Tie/PowCode.lean`. -/
 theorem src :
     Gen.Pow.src_pow_Score = Expect.Pow_src_pow_Score ∧
     Gen.Pow.src_pow_trailingZeros = Expect.Pow_src_pow_trailingZeros ∧
@@ -35,7 +40,6 @@ theorem src :
     Gen.Pow.src_pow_New = Expect.Pow_src_pow_New ∧
     Gen.Pow.src_pow_Worker_Mine = Expect.Pow_src_pow_Worker_Mine ∧
     Gen.Pow.src_pow_Worker_worker = Expect.Pow_src_pow_Worker_worker ∧
-    Gen.Pow.src_pow_checkStateTrits = Expect.Pow_src_pow_checkStateTrits ∧
     Gen.Pow.src_v2_Score = Expect.Pow_src_v2_Score ∧
     Gen.Pow.src_v2_difficulty = Expect.Pow_src_v2_difficulty ∧
     Gen.Pow.src_v2_encodeNonce = Expect.Pow_src_v2_encodeNonce ∧
@@ -49,7 +53,7 @@ theorem src :
     Gen.Pow.src_v2_Worker_worker = Expect.Pow_src_v2_Worker_worker ∧
     Gen.Pow.src_v2_checkStateTrits = Expect.Pow_src_v2_checkStateTrits ∧
     Gen.Pow.src_v2_stateToInt = Expect.Pow_src_v2_stateToInt :=
-  ⟨rfl, rfl, rfl, rfl, rfl, rfl, rfl, rfl, rfl, rfl, rfl, rfl, rfl, rfl, rfl, rfl, rfl, rfl, rfl, rfl⟩
+  ⟨rfl, rfl, rfl, rfl, rfl, rfl, rfl, rfl, rfl, rfl, rfl, rfl, rfl, rfl, rfl, rfl, rfl, rfl, rfl⟩
 
 /-- everything else the package declares (imports, constants, types, variables, build constraints and the functions not
 pinned one by one) is unchanged too: no declaration of the modelled packages can change without a tie theorem failing. -/
@@ -57,5 +61,15 @@ theorem rest :
     Gen.Pow.rest_pow = Expect.Pow_rest_pow ∧
     Gen.Pow.rest_powv2 = Expect.Pow_rest_powv2 :=
   ⟨rfl, rfl⟩
+
+/-! ### v1 `checkStateTrits` translated AS CODE (three-clause loop, checked array indexing, `bits.TrailingZeros`)
+= the model's lane test, for all planes; `none` would be a Go run-time panic (proofs: `Iota/Tie/PowCode.lean`). -/
+theorem code_checkStateTrits_v1 (l h : Pow.Planes) (n : Nat) (hn : n ≤ 243) :
+    Gen.Pow.v1.checkStateTrits l.toList h.toList (BitVec.ofNat 64 n) = some (BitVec.ofNat 64 (Pow.checkV1 l h n)) :=
+  Iota.Tie.PowCode.checkStateTrits_eq l h n hn
+/-- for n > 243 the subtraction wraps, the loop does not run and lane 0 is reported whatever the state (the caller
+`worker` panics on such an n before getting here, and `Mine` no longer produces one: fix F9) -/
+theorem code_checkStateTrits_v1_large (l h : List (BitVec 64)) (n : BitVec 64) (hn : 243 < n.toNat) :
+    Gen.Pow.v1.checkStateTrits l h n = some 0#64 := Iota.Tie.PowCode.checkStateTrits_large l h n hn
 
 end Iota.Tie.Pow
